@@ -327,7 +327,18 @@ where
         entity_allocator: &mut entity::Allocator<R>,
         len: &mut usize,
     ) {
-        for archetype in self.iter_mut() {
+        // The archetypes are visited in the order of their identifiers, not in the order of the
+        // table: the latter depends on where the identifiers happen to be allocated, and the order
+        // in which the entities' identifiers become available for reuse has to be the same for a
+        // world and for its clones and deserialized copies.
+        let mut archetypes = self.iter_mut().collect::<Vec<_>>();
+        archetypes.sort_unstable_by(|a, b| {
+            // SAFETY: The identifiers are not used beyond this comparison, during which both
+            // archetypes are borrowed.
+            unsafe { a.identifier().as_slice().cmp(b.identifier().as_slice()) }
+        });
+
+        for archetype in archetypes {
             *len -= archetype.len();
             // SAFETY: The `entity_allocator` is guaranteed to have an entry for each entity stored
             // in `archetype`.
